@@ -125,7 +125,11 @@ type prioMon struct {
 	divCalls  int
 	fullStates int
 	saturated bool
+	satEnded  bool
 	removed map[*vrt.ChanState]bool
+	pendingReg map[*vrt.ChanState]uint
+	inHand  *Item
+	scriptLog []string
 	lastFrom []int
 	order    []string // delivery order along the current path (not part of the key)
 }
@@ -142,7 +146,7 @@ func (m *prioMon) Hash() uint64 {
 		h = vrt.Mix(h, uint64(k), uint64(m.inflight[k]))
 	}
 	b := uint64(0)
-	for i, f := range []bool{m.outClosed, m.errClosed, m.stopReturned, m.gracefulReturned} {
+	for i, f := range []bool{m.outClosed, m.errClosed, m.stopReturned, m.gracefulReturned, m.saturated} {
 		if f {
 			b |= 1 << uint(i)
 		}
@@ -153,6 +157,17 @@ func (m *prioMon) Hash() uint64 {
 		}
 	}
 	h = vrt.Mix(h, b, uint64(len(m.errSeen)))
+	if m.inHand != nil {
+		h = vrt.Mix(h, m.inHand.VrtKey())
+	}
+	for c := range m.removed {
+		if m.removed[c] {
+			h += vrt.Mix(c.ID, 0x4e)
+		}
+	}
+	for c, p := range m.pendingReg {
+		h += vrt.Mix(c.ID, uint64(p), 0x4f)
+	}
 	if len(m.reg) > 0 {
 		rs := make([]uint64, 0, len(m.reg))
 		for c, p := range m.reg {
@@ -186,6 +201,27 @@ func decode(v any) (uint, Item, bool) {
 }
 
 func (m *prioMon) OnEvent(w *vrt.World, ev *vrt.Event) {
+	if ev.Kind == vrt.EvRecv && m.saturated && ev.T.Lib {
+		if i := m.inputIndex(ev.Ch); i >= 0 && ev.Ch.Len() == 0 {
+			// the input ran empty: "data waiting continuously" no longer holds
+			m.saturated = false
+			m.satEnded = true
+		}
+	}
+	if ev.Kind == vrt.EvRecv && ev.T.Lib && ev.OK {
+		if i := m.inputIndex(ev.Ch); i >= 0 {
+			if m.removed[ev.Ch] {
+				m.f.fail("C17", "the discipline read from a channel after RemoveInput / replacement of it had returned (input %d)", i)
+			}
+			if it, ok := ev.Val.(Item); ok {
+				if m.inHand != nil && m.cfg.Stop != "stop" && m.cfg.Stop != "cancel" {
+					m.f.fail("C02", "item %v was read from its input but never written to the output (next item %v read)", *m.inHand, it)
+					m.f.fail("C17", "item %v was read from its input but never written to the output (next item %v read)", *m.inHand, it)
+				}
+				m.inHand = &it
+			}
+		}
+	}
 	switch ev.Kind {
 	case vrt.EvClose:
 		if i := m.inputIndex(ev.Ch); i >= 0 {
@@ -198,8 +234,11 @@ func (m *prioMon) OnEvent(w *vrt.World, ev *vrt.Event) {
 				if m.removed[c] {
 					continue
 				}
+				if _, registered := m.reg[c]; !registered {
+					continue
+				}
 				if (!m.inClosed[i] || c.Len() != 0) && m.faulted == 0 {
-					m.f.fail("C07", "discipline closed %s although input %d (priority %d) is not closed and drained", ev.Ch, i, m.P[i])
+					m.f.fail("C07", "discipline closed %s although input %d (priority %d) is not closed and drained", ev.Ch, i, m.reg[c])
 				}
 			}
 			if m.total != 0 && m.faulted == 0 {
@@ -271,8 +310,12 @@ func (m *prioMon) onDeliver(w *vrt.World, ev *vrt.Event) {
 		m.f.fail("C02", "item %v was never written to any input", it)
 		return
 	}
+	m.inHand = nil
 	ch := m.origin[it.In]
 	want, known := m.reg[ch]
+	if pp, pending := m.pendingReg[ch]; pending && pp == p {
+		want, known = pp, true
+	}
 	if !known {
 		m.f.fail("C17", "item %v delivered from a channel that is not registered", it)
 	} else if want != p {
@@ -281,9 +324,12 @@ func (m *prioMon) onDeliver(w *vrt.World, ev *vrt.Event) {
 		}
 		m.f.fail("C02", "item %v of the input registered for priority %d delivered with priority %d", it, want, p)
 	}
-	if it.Seq != m.nextSeq[it.In] {
+	rough := m.cfg.Stop == "stop" || m.cfg.Stop == "cancel"
+	if it.Seq != m.nextSeq[it.In] && !(rough && it.Seq > m.nextSeq[it.In] && it.Seq < m.written[it.In]) {
+		// under a rough stop an item read but not delivered is lost: what is
+		// delivered must still be an in-order duplicate-free subsequence (C16)
 		clause := "C02"
-		if m.cfg.Stop == "stop" || m.cfg.Stop == "cancel" {
+		if rough {
 			clause = "C16"
 		}
 		if it.Seq < m.nextSeq[it.In] {
@@ -330,12 +376,16 @@ type prioEnv struct {
 }
 
 func newPrio(c Cfg, w *vrt.World) *explore.Instance {
-	m := &prioMon{cfg: c, w: w, P: c.P, H: c.H, inflight: map[uint]int{}, reg: map[*vrt.ChanState]uint{}, origin: map[int]*vrt.ChanState{}, handled: map[Item]int{}, removed: map[*vrt.ChanState]bool{}}
+	m := &prioMon{cfg: c, w: w, P: c.P, H: c.H, inflight: map[uint]int{}, reg: map[*vrt.ChanState]uint{}, origin: map[int]*vrt.ChanState{}, handled: map[Item]int{}, removed: map[*vrt.ChanState]bool{}, pendingReg: map[*vrt.ChanState]uint{}}
 	m.f = failer{c, w}
 	np := len(c.P)
-	m.written = make([]int, np)
-	m.nextSeq = make([]int, np)
-	m.inClosed = make([]bool, np)
+	nx := 0
+	if c.Script > 0 {
+		nx = 2 // two extra channels for the add / replace operations
+	}
+	m.written = make([]int, np+nx)
+	m.nextSeq = make([]int, np+nx)
+	m.inClosed = make([]bool, np+nx)
 	w.Monitors = append(w.Monitors, m)
 	// oracle share: the configured divider applied by the harness
 	m.share = map[uint]uint{}
@@ -517,13 +567,13 @@ func newPrio(c Cfg, w *vrt.World) *explore.Instance {
 					vrt.Send(ch, Item{i, k})
 				}
 				vrt.Mark(uint64(n) + 1000)
-				if c.Mode != "open" && c.Mode != "saturate" {
+				if c.Mode != "open" && c.Mode != "saturate" && c.Mode != "alone" {
 					vrt.Close(ch)
 				}
 			})
 		}
 		// closer for prefilled inputs: closes them in any order at any time
-		if len(prefilled) > 0 && c.Mode != "open" && c.Mode != "saturate" {
+		if len(prefilled) > 0 && c.Mode != "open" && c.Mode != "saturate" && c.Mode != "alone" {
 			vrt.Spawn("closer", func() {
 				// fixed order (descending priority, or ascending with Mode closeasc); the
 				// scheduler places every close at every point of the run
@@ -589,6 +639,9 @@ func newPrio(c Cfg, w *vrt.World) *explore.Instance {
 				}
 			})
 			budget := c.R
+			if c.Mode == "alone" {
+				break
+			}
 			vrt.Spawn("releaser", func() {
 				cd := &cond{id: 0x4e1, ready: func() bool { return len(held) > 0 || receiverDone }}
 				n := 0
@@ -597,6 +650,9 @@ func newPrio(c Cfg, w *vrt.World) *explore.Instance {
 					vrt.Block(cd)
 					if len(held) == 0 {
 						return
+					}
+					if c.Mode == "stingy" && vrt.Choose(2) == 1 {
+						return // this and all later releases never happen
 					}
 					// distinct held priorities
 					var ds []uint
@@ -631,7 +687,7 @@ func newPrio(c Cfg, w *vrt.World) *explore.Instance {
 		return m.terminal(w, out, totalItems, divw)
 	}
 	inst.Goal = func(w *vrt.World) bool {
-		if c.Mode == "open" || c.Mode == "saturate" {
+		if c.Mode == "open" || c.Mode == "saturate" || c.Mode == "alone" || c.Mode == "stingy" || c.Mode == "withhold" {
 			return true
 		}
 		return m.errClosed
@@ -655,6 +711,25 @@ func (m *prioMon) terminal(w *vrt.World, out vrt.Outcome, totalItems int, divw *
 	if c.Mode == "open" || c.Mode == "saturate" || c.Mode == "withhold" {
 		return ""
 	}
+	if c.Mode == "alone" {
+		// C06: a priority that is alone in having data is granted all H handlers
+		if uint(m.total) != m.H && want(c, "C06") {
+			return fmt.Sprintf("C06: only one priority has data (more than H items), nothing is released, but it holds %d of %d handlers (in flight %v)", m.total, m.H, m.inflight)
+		}
+		return ""
+	}
+	if c.Mode == "stingy" {
+		// C06: when nothing is in flight and some input has data an item is delivered
+		// without any release being needed
+		if m.total == 0 && want(c, "C06") {
+			for i, ch := range m.ins {
+				if ch.Len() > 0 || m.written[i] > m.nextSeq[i] {
+					return fmt.Sprintf("C06: nothing is in flight and input %d (priority %d) has data waiting, but nothing is delivered although no release is outstanding: %s", i, m.P[i], w.Describe())
+				}
+			}
+		}
+		return ""
+	}
 	if m.faulted != 0 {
 		// C15: after a fault in a round division the discipline reports and terminates
 		if !want(c, "C15") {
@@ -663,7 +738,11 @@ func (m *prioMon) terminal(w *vrt.World, out vrt.Outcome, totalItems int, divw *
 		if !m.errClosed {
 			return fmt.Sprintf("C15: after a divider fault (call %d) the discipline did not terminate: %s", m.faulted, w.Describe())
 		}
-		if len(m.errSeen) != 1 || m.errSeen[0] != prio2.ErrDividerBad {
+		bad := error(prio2.ErrDividerBad)
+		if c.Disc == "v1" || c.Disc == "s1" {
+			bad = prio1.ErrDividerBad
+		}
+		if len(m.errSeen) != 1 || m.errSeen[0] != bad {
 			return fmt.Sprintf("C15: after a divider fault (call %d, kind %d) Err() yielded %v instead of exactly ErrDividerBad", m.faulted, m.faultKind, m.errSeen)
 		}
 		return m.libAlive(w)
@@ -709,10 +788,20 @@ func (m *prioMon) terminal(w *vrt.World, out vrt.Outcome, totalItems int, divw *
 				}
 			}
 		}
+	} else if c.Script > 0 {
+		for idx, ch := range m.origin {
+			if _, registered := m.reg[ch]; registered && m.nextSeq[idx] != m.written[idx] && want(c, "C17") {
+				return fmt.Sprintf("C17: GracefulStop() returned but only %d of %d items of the registered input %d were delivered (script %v)", m.nextSeq[idx], m.written[idx], idx, m.scriptLog)
+			}
+		}
+		if m.inHand != nil && want(c, "C17") {
+			return fmt.Sprintf("C17: item %v was read but never delivered", *m.inHand)
+		}
+		return m.libAlive(w)
 	} else if m.delivered != totalItems && want(c, "C02") {
 		return fmt.Sprintf("C02: terminated normally but only %d of %d written items were delivered (per input next sequence numbers %v)", m.delivered, totalItems, m.nextSeq)
 	}
-	if want(c, "C06") && m.delivered != totalItems && c.Disc != "s2" {
+	if want(c, "C06") && m.delivered != totalItems && c.Disc != "s2" && c.Disc != "s1" {
 		return fmt.Sprintf("C06: only %d of %d written items were delivered", m.delivered, totalItems)
 	}
 	if !m.errClosed && want(c, "C07") {
@@ -903,6 +992,9 @@ func (m *prioMon) spawnV1Control(c Cfg, v1 *v1Ctl, inputs []chan Item) {
 			v1.cancel()
 		})
 	default:
+		if c.Script > 0 {
+			m.spawnScript(c, v1, inputs)
+		}
 		vrt.Spawn("graceful", func() {
 			cd := &cond{id: 0x6a1, ready: func() bool { return v1.scriptDone }}
 			vrt.Block(cd)
@@ -928,4 +1020,98 @@ func (m *prioMon) spawnV1Control(c Cfg, v1 *v1Ctl, inputs []chan Item) {
 			}
 		})
 	}
+}
+
+// spawnScript: the control thread executes a Choose'n sequence of at most
+// Script operations out of
+//
+//	0 AddInput(new channel C, new priority)     3 RemoveInput(lowest priority)
+//	1 AddInput(new channel D, highest priority)  4 AddInput(original channel, highest priority)
+//	2 RemoveInput(highest priority)
+//
+// each used at most once; it may stop early.
+func (m *prioMon) spawnScript(c Cfg, v1 *v1Ctl, inputs []chan Item) {
+	np := len(c.P)
+	hi, lo := c.P[0], c.P[np-1]
+	newP := hi + 1
+	mk := func(idx int, name string, n int) chan Item {
+		ch := vrt.MakeChan[Item](n)
+		st := vrt.NameChan[Item](ch, name)
+		m.ins = append(m.ins, st)
+		m.origin[idx] = st
+		items := make([]Item, n)
+		for k := range items {
+			items[k] = Item{idx, k}
+		}
+		vrt.Prefill(ch, items...)
+		vrt.CloseNow(ch)
+		m.written[idx] = n
+		m.inClosed[idx] = true
+		return ch
+	}
+	chC := mk(np, "inC", 2)
+	chD := mk(np+1, "inD", 2)
+	m.P = append(append([]uint{}, m.P...), newP)
+	current := func(p uint) *vrt.ChanState {
+		for ch, q := range m.reg {
+			if q == p {
+				return ch
+			}
+		}
+		return nil
+	}
+	doAdd := func(ch chan Item, st *vrt.ChanState, p uint) {
+		old := current(p)
+		m.pendingReg[st] = p
+		m.removed[st] = false
+		v1.add(ch, p)
+		delete(m.pendingReg, st)
+		if old != nil && old != st {
+			delete(m.reg, old)
+			m.removed[old] = true
+		}
+		m.reg[st] = p
+	}
+	doRemove := func(p uint) {
+		old := current(p)
+		v1.remove(p)
+		if old != nil {
+			delete(m.reg, old)
+			m.removed[old] = true
+		}
+	}
+	vrt.Spawn("control", func() {
+		used := 0
+		for step := 0; step < c.Script; step++ {
+			vrt.Mark(vrt.Mix(uint64(used), uint64(step)))
+			var avail []int
+			for op := 0; op < 5; op++ {
+				if used&(1<<uint(op)) == 0 {
+					avail = append(avail, op)
+				}
+			}
+			k := vrt.Choose(len(avail) + 1)
+			if k == len(avail) {
+				break // stop early
+			}
+			op := avail[k]
+			used |= 1 << uint(op)
+			vrt.Mark(vrt.Mix(uint64(used), uint64(step), uint64(op), 9))
+			m.scriptLog = append(m.scriptLog, fmt.Sprint(op))
+			switch op {
+			case 0:
+				doAdd(chC, m.origin[np], newP)
+			case 1:
+				doAdd(chD, m.origin[np+1], hi)
+			case 2:
+				doRemove(hi)
+			case 3:
+				doRemove(lo)
+			case 4:
+				doAdd(inputs[0], m.origin[0], hi)
+			}
+		}
+		vrt.Mark(vrt.Mix(uint64(used), 0xd0e))
+		v1.scriptDone = true
+	})
 }
